@@ -136,4 +136,92 @@ theorem add_sequence_monotone (fs : Files) (rs : List Req) (p : String) (v : J) 
   | nil => exact h
   | cons r rest ih => exact ih _ (add_monotone fs r p v hp h)
 
+/-! ## the planned files are there afterwards -/
+
+open BSE.Index in
+theorem getFile_append_new (fs : Files) (q : String) (j : J) (h : exists_ fs q = false) :
+    getFile (fs ++ [(q, j)]) q = some j := by
+  unfold getFile
+  rw [List.find?_append]
+  have : fs.find? (·.1 == q) = none := by
+    apply List.find?_eq_none.2
+    intro x hx hq
+    have : exists_ fs q = true := List.any_eq_true.2 ⟨x, hx, hq⟩
+    rw [h] at this; cases this
+  simp [this]
+
+theorem getFile_append_other (fs : Files) (p q : String) (j : J) (hne : p ≠ q) :
+    getFile (fs ++ [(q, j)]) p = getFile fs p := by
+  unfold getFile
+  rw [List.find?_append]
+  have : (q == p) = false := by simpa using (Ne.symm hne)
+  cases hf : fs.find? (·.1 == p) with
+  | none => simp [List.find?_cons, this]
+  | some v => simp
+
+theorem exists_append (fs : Files) (p q : String) (j : J) : exists_ (fs ++ [(q, j)]) p = (exists_ fs p || q == p) := by
+  simp [exists_]
+
+/-- the directory after the three writes, before the index is regenerated -/
+def written (fs : Files) (pl : Plan) : Files :=
+  if exists_ (fs ++ [(pl.elemRel, pl.elemData)] ++ [(pl.tableRel, pl.tableData)]) pl.metaRel
+  then fs ++ [(pl.elemRel, pl.elemData)] ++ [(pl.tableRel, pl.tableData)]
+  else fs ++ [(pl.elemRel, pl.elemData)] ++ [(pl.tableRel, pl.tableData)] ++ [(pl.metaRel, pl.metaData)]
+
+open BSE.Index in
+theorem commit_getFile (fs : Files) (pl : Plan) (p : String) (hp : p ≠ "METADATA.json") :
+    getFile (commit fs pl).1 p = getFile (written fs pl) p := by
+  unfold commit written
+  simp only
+  split
+  · rfl
+  · rw [getFile_put_other _ p "METADATA.json" _ hp]
+
+/-- **a successful addition leaves exactly the planned element and table files behind** (and the planned metadata file
+when the basis had none): reading those paths in the new directory gives the planned contents -/
+theorem commit_writes_planned (fs : Files) (pl : Plan)
+    (he : exists_ fs pl.elemRel = false) (ht : exists_ fs pl.tableRel = false)
+    (hd : pl.elemRel ≠ pl.tableRel ∧ pl.elemRel ≠ pl.metaRel ∧ pl.tableRel ≠ pl.metaRel)
+    (hm : pl.elemRel ≠ "METADATA.json" ∧ pl.tableRel ≠ "METADATA.json" ∧ pl.metaRel ≠ "METADATA.json") :
+    getFile (commit fs pl).1 pl.elemRel = some pl.elemData
+    ∧ getFile (commit fs pl).1 pl.tableRel = some pl.tableData
+    ∧ (exists_ fs pl.metaRel = false → getFile (commit fs pl).1 pl.metaRel = some pl.metaData) := by
+  have e2 : getFile (fs ++ [(pl.elemRel, pl.elemData)] ++ [(pl.tableRel, pl.tableData)]) pl.elemRel = some pl.elemData := by
+    rw [getFile_append_other _ _ _ _ hd.1, getFile_append_new fs _ _ he]
+  have t2 : getFile (fs ++ [(pl.elemRel, pl.elemData)] ++ [(pl.tableRel, pl.tableData)]) pl.tableRel = some pl.tableData := by
+    apply getFile_append_new
+    rw [exists_append, ht]
+    simpa using hd.1
+  rw [commit_getFile fs pl _ hm.1, commit_getFile fs pl _ hm.2.1, commit_getFile fs pl _ hm.2.2]
+  refine ⟨?_, ?_, ?_⟩
+  · unfold written
+    split
+    · exact e2
+    · rw [getFile_append_other _ _ _ _ hd.2.1]; exact e2
+  · unfold written
+    split
+    · exact t2
+    · rw [getFile_append_other _ _ _ _ hd.2.2]; exact t2
+  · intro hmeta
+    have hm2 : exists_ (fs ++ [(pl.elemRel, pl.elemData)] ++ [(pl.tableRel, pl.tableData)]) pl.metaRel = false := by
+      rw [exists_append, exists_append, hmeta]
+      have h1 : (pl.elemRel == pl.metaRel) = false := by simpa using hd.2.1
+      have h2 : (pl.tableRel == pl.metaRel) = false := by simpa using hd.2.2
+      simp [h1, h2]
+    unfold written
+    rw [if_neg (by rw [hm2]; simp)]
+    exact getFile_append_new _ _ _ hm2
+
+/-- … through `add_from_components`: when it does not raise, the element and table files it planned are there, and they
+list exactly the elements common to all components, each pointing at all the components in the order given -/
+theorem add_writes_planned (fs : Files) (r : Req) (pl : Plan) (hpre : precheck fs r = .ok pl)
+    (he : exists_ fs pl.elemRel = false) (ht : exists_ fs pl.tableRel = false)
+    (hd : pl.elemRel ≠ pl.tableRel ∧ pl.elemRel ≠ pl.metaRel ∧ pl.tableRel ≠ pl.metaRel)
+    (hm : pl.elemRel ≠ "METADATA.json" ∧ pl.tableRel ≠ "METADATA.json" ∧ pl.metaRel ≠ "METADATA.json") :
+    getFile (addFromComponents fs r).1 pl.elemRel = some pl.elemData
+    ∧ getFile (addFromComponents fs r).1 pl.tableRel = some pl.tableData := by
+  unfold addFromComponents
+  rw [hpre]
+  exact ⟨(commit_writes_planned fs pl he ht hd hm).1, (commit_writes_planned fs pl he ht hd hm).2.1⟩
+
 end BSE.Props.C17
